@@ -185,6 +185,17 @@ def run_case(seed, tier, rec, st):
             # an explicit null at nested positions (the junk value most often special-cased by generated code)
             for p in rng.sample(ps, min(len(ps), 8 if tier == "quick" else 24)):
                 faults.append(("nested-null", set_at(d0, p, None), None))
+            # structural faults at nested positions: one key of a nested mapping dropped (NamedTuple-as-dict, TypedDict,
+            # nested dataclass), a nested list cut short (tuples, NamedTuples with and without defaults)
+            nps = [p for p in paths(d0) if len(p) >= 1 and isinstance(get_at(d0, p), (dict, list)) and get_at(d0, p)]
+            for p in rng.sample(nps, min(len(nps), 6 if tier == "quick" else 20)):
+                tgt = get_at(d0, p)
+                if isinstance(tgt, dict):
+                    k = rng.choice(list(tgt))
+                    faults.append(("nested-drop-key", set_at(d0, p, {a: b for a, b in tgt.items() if a != k}), None))
+                else:
+                    cut = rng.randrange(len(tgt))
+                    faults.append(("nested-cut", set_at(d0, p, list(tgt[:cut]) + list(tgt[cut + 1:])), None))
             # two simultaneous faults: the first bad field in declaration order must be named
             for _ in range(4 if tier == "quick" else 12):
                 if len(keys) >= 2:
